@@ -33,8 +33,8 @@ def TseitinFormula(G, charges=None, formula_class=CNF):
         charges = [True] + [False] * (n - 1)  # odd charge on first vertex
         parity = 'odd'
     else:
-        parity = 'even' if sum(charges) % 2 == 0 else 'odd'
         charges = [bool(c) for c in charges]  # map to boolean
+        parity = 'even' if sum(charges) % 2 == 0 else 'odd'
 
     if len(charges) < G.order():
         charges = charges + [False] * (n - len(charges))  # pad with even charges
